@@ -105,7 +105,7 @@ class Ctx:
         evaluated values) and holds however the function is written.  Otherwise the rule compared program text, which is
         evidence only while the function is close to the shape that was reviewed when the rule was written: on a restructured
         function the rule reports *undecided* instead (sa/shapes.py)."""
-        if isinstance(fi_or_where, FuncInfo) and not robust and not os.environ.get("SA_NO_SHAPE_GATE"):
+        if isinstance(fi_or_where, FuncInfo) and (not robust or os.environ.get("SA_GATE_ALL")) and not os.environ.get("SA_NO_SHAPE_GATE"):
             from .shapes import trusted
 
             ok, why = trusted(fi_or_where.where, fi_or_where.node)
